@@ -287,6 +287,169 @@ theorem cleanBatch_spec (setOk : String → Bool) (hash : String → String) (T 
   · simp [hc]
   · simp [hc, g0]
 
+/-! ## CleanPortMapping as a whole -/
+
+theorem ensureChain_get (T : Table) (k c : String) :
+    Tbl.get (ensureChain T k).2 c = if c = k then some ((Tbl.get T k).getD []) else Tbl.get T c := by
+  unfold ensureChain
+  by_cases hh : Tbl.has T k = true
+  · obtain ⟨rs, hrs⟩ := has_iff.mp hh
+    by_cases hc : c = k
+    · subst hc; simp [hh, hrs]
+    · simp [hh, hc]
+  · have hn : Tbl.get T k = none := has_false_iff.mp (by simpa using hh)
+    by_cases hc : c = k
+    · subst hc; simp [hh, hn]
+    · have hne : ¬ k = c := fun e => hc e.symm
+      simp [hh, hc, Tbl.get_set, hne]
+
+theorem ensureChains_get (hash : String → String) : ∀ (qs : List Port) (T : Table) (c : String),
+    Tbl.get (ensureChains hash T qs) c =
+      if c ∈ qs.map (chainName hash) then some ((Tbl.get T c).getD []) else Tbl.get T c
+  | [], _, _ => by simp [ensureChains]
+  | q :: qs, T, c => by
+    simp only [ensureChains]
+    rw [ensureChains_get hash qs _ c, ensureChain_get]
+    by_cases h1 : c ∈ qs.map (chainName hash)
+    · by_cases h2 : c = chainName hash q
+      · subst h2; simp [h1]
+      · simp [h1, h2]
+    · by_cases h2 : c = chainName hash q
+      · subst h2; simp [h1]
+      · simp [h1, h2]
+
+/-- CleanPortMapping (with the EnsureChain loop) from ANY table with KUBE-HOSTPORTS: it succeeds as soon as nothing
+    but the pod's own KUBE-HOSTPORTS rules (one copy each) refers to the pod's chains — whether those chains exist
+    or not — and removes exactly the pod's chains and rules. -/
+theorem clean_general (hash : String → String) (T : Table) (ps : List Port) (kh : List Rule)
+    (hk : Tbl.get T hostportsChain = some kh)
+    (hnd : (ps.map (chainName hash)).Nodup)
+    (href : ∀ k rs r c, k ≠ hostportsChain → k ∉ ps.map (chainName hash) → Tbl.get T k = some rs → r ∈ rs →
+      chainRef r = some c → c ∉ ps.map (chainName hash))
+    (hkh : ∀ r ∈ eraseAll kh (ps.map (jumpRule hash)), ∀ c, chainRef r = some c → c ∉ ps.map (chainName hash)) :
+    ∃ T4, cleanWith true hash T ps = (T4, none) ∧
+      ∀ c, Tbl.get T4 c =
+        if c ∈ ps.map (chainName hash) then none
+        else if c = hostportsChain then some (eraseAll kh (ps.map (jumpRule hash))) else Tbl.get T c := by
+  have hkn : hostportsChain ∉ ps.map (chainName hash) := by
+    intro h
+    have := names_prefix h
+    rw [hostports_no_prefix] at this; cases this
+  have g0 := ensureChains_get hash ps T
+  have hk0 : Tbl.get (ensureChains hash T ps) hostportsChain = some kh := by rw [g0]; simp [hkn, hk]
+  have hn0 : ∀ p ∈ ps, Tbl.has (ensureChains hash T ps) (chainName hash p) = true := by
+    intro p hp
+    simp [Tbl.has, g0, List.mem_map_of_mem hp]
+  obtain ⟨T3, h3, g3k, g3⟩ := deleteJumps_spec hash ps _ _ hk0 hn0
+  obtain ⟨T4, h4, g4⟩ := cleanBatch_spec (fun _ => true) hash T3 ps hnd (by
+    intro k rs' r c hkr hr hc hcn
+    by_cases hkn' : k ∈ ps.map (chainName hash)
+    · exact hkn'
+    · exfalso
+      by_cases hkh' : k = hostportsChain
+      · subst hkh'
+        rw [g3k] at hkr; cases hkr
+        exact hkh r hr c hc hcn
+      · rw [g3 k hkh', g0 k] at hkr
+        simp only [hkn', if_false] at hkr
+        exact href k rs' r c hkh' hkn' hkr hr hc hcn)
+  refine ⟨T4, ?_, ?_⟩
+  · simp [cleanWith, Generated.Netfilter.cleanDeletesJumpRulesBeforeRestore, h3, Generated.Netfilter.cleanRestores,
+      commit, h4]
+  · intro c
+    rw [g4 c]
+    by_cases hcn : c ∈ ps.map (chainName hash)
+    · simp [hcn]
+    · simp only [hcn, if_false]
+      by_cases hch : c = hostportsChain
+      · subst hch; rw [g3k]; simp
+      · rw [g3 c hch, g0 c]; simp [hcn, hch]
+
+theorem clean_eq_cleanWith (hash : String → String) (T : Table) (ps : List Port) :
+    clean hash T ps = cleanWith true hash T ps := by
+  simp [clean, Generated.Netfilter.cleanEnsuresChainsFirst]
+
+theorem jump_not_in_prior {hash : String → String} {T : Table} {ps : List Port} {rs : List Rule}
+    (hk : Tbl.get T hostportsChain = some rs)
+    (hunref : ∀ p ∈ ps, referenced T (chainName hash p) = false) :
+    ∀ j ∈ ps.map (jumpRule hash), j ∉ rs := by
+  intro j hj hmem
+  obtain ⟨p, hp, rfl⟩ := List.mem_map.mp hj
+  have := referenced_false_iff.mp (hunref p hp) hostportsChain rs _ hk hmem
+  exact this (chainRef_jump hash p)
+
+theorem eraseAll_sub : ∀ (js rs l : List Rule), (∀ j ∈ js, j ∉ rs) → l.Nodup → (∀ x ∈ l, x ∈ js) →
+    eraseAll (rs ++ l) js = rs
+  | [], rs, l, _, _, hsub => by
+    have : l = [] := List.eq_nil_iff_forall_not_mem.mpr (fun x hx => by simpa using hsub x hx)
+    subst this; simp [eraseAll]
+  | j :: js, rs, l, h, hl, hsub => by
+    have hj : j ∉ rs := h j (List.mem_cons_self ..)
+    simp only [eraseAll]
+    rw [List.erase_append_right _ hj]
+    apply eraseAll_sub js rs (l.erase j) (fun j' hj' => h j' (List.mem_cons_of_mem _ hj')) (hl.erase _)
+    intro x hx
+    have hx' := (List.Nodup.mem_erase_iff hl).mp hx
+    rcases List.mem_cons.mp (hsub x hx'.2) with e | e
+    · exact absurd e hx'.1
+    · exact e
+
+/-- `T2` = the prior table `T` (in which nothing refers to the pod's chains) plus galaxy's KUBE-MARK-MASQ, possibly
+    the pod's chains (`body`: any content) and some of its KUBE-HOSTPORTS rules (`l`): CleanPortMapping succeeds and
+    leaves `T` (with galaxy's KUBE-MARK-MASQ) -/
+theorem clean_spec_partial (hash : String → String) (T T2 : Table) (ps : List Port) (rs l : List Rule)
+    (mm : Option (List Rule)) (body : String → Option (List Rule))
+    (hk : Tbl.get T hostportsChain = some rs)
+    (hnd : (ps.map (chainName hash)).Nodup)
+    (hunref : ∀ p ∈ ps, referenced T (chainName hash p) = false)
+    (hl : l.Nodup) (hlsub : ∀ x ∈ l, x ∈ ps.map (jumpRule hash))
+    (hmm : mm = some [markRule] ∨ mm = Tbl.get T markMasqChain)
+    (g2 : ∀ c, Tbl.get T2 c =
+      if c = markMasqChain then mm
+      else if c ∈ ps.map (chainName hash) then body c
+      else if c = hostportsChain then some (rs ++ l) else Tbl.get T c) :
+    ∃ T4, clean hash T2 ps = (T4, none) ∧
+      ∀ c, Tbl.get T4 c =
+        if c ∈ ps.map (chainName hash) then none
+        else if c = markMasqChain then mm else Tbl.get T c := by
+  have hkn : hostportsChain ∉ ps.map (chainName hash) := by
+    intro h
+    have := names_prefix h
+    rw [hostports_no_prefix] at this; cases this
+  have hfresh := jump_not_in_prior hk hunref
+  have hk2 : Tbl.get T2 hostportsChain = some (rs ++ l) := by
+    rw [g2]; simp [hkn, markMasq_ne_hostports.symm]
+  have hunrefT : ∀ k rs' r c, Tbl.get T k = some rs' → r ∈ rs' → chainRef r = some c →
+      c ∉ ps.map (chainName hash) := by
+    intro k rs' r c hg hr hc hcn
+    obtain ⟨p, hp, rfl⟩ := List.mem_map.mp hcn
+    exact referenced_false_iff.mp (hunref p hp) _ _ _ hg hr hc
+  obtain ⟨T4, h4, g4⟩ := clean_general hash T2 ps (rs ++ l) hk2 hnd (by
+    intro k rs' r c hkh hkn' hg hr hc
+    rw [g2 k] at hg
+    by_cases hkm : k = markMasqChain
+    · simp only [hkm, if_true] at hg
+      rcases hmm with e | e
+      · rw [e] at hg; cases hg
+        simp only [List.mem_cons, List.mem_nil_iff, or_false] at hr
+        subst hr; rw [chainRef_mark] at hc; cases hc
+      · rw [e] at hg; exact hunrefT _ _ _ _ hg hr hc
+    · simp only [hkm, hkn', hkh, if_false] at hg
+      exact hunrefT _ _ _ _ hg hr hc) (by
+    rw [eraseAll_sub _ _ _ hfresh hl hlsub]
+    intro r hr c hc
+    exact hunrefT _ _ _ _ hk hr hc)
+  rw [eraseAll_sub _ _ _ hfresh hl hlsub] at g4
+  refine ⟨T4, by rw [clean_eq_cleanWith]; exact h4, ?_⟩
+  intro c
+  rw [g4 c]
+  by_cases hcn : c ∈ ps.map (chainName hash)
+  · simp [hcn]
+  · simp only [hcn, if_false]
+    by_cases hch : c = hostportsChain
+    · subst hch; simp [markMasq_ne_hostports.symm, hk]
+    · rw [g2 c]; simp [hcn, hch]
+
 /-! ## SetupPortMapping and CleanPortMapping as a whole -/
 
 theorem setup_spec (hash : String → String) (T : Table) (ps : List Port) (rs : List Rule)
@@ -316,15 +479,6 @@ theorem setup_spec (hash : String → String) (T : Table) (ps : List Port) (rs :
       simp [g2k, markMasq_ne_hostports.symm, hkn]
     · rw [g2 c hc, g1 c]; simp [hc]
 
-theorem jump_not_in_prior {hash : String → String} {T : Table} {ps : List Port} {rs : List Rule}
-    (hk : Tbl.get T hostportsChain = some rs)
-    (hunref : ∀ p ∈ ps, referenced T (chainName hash p) = false) :
-    ∀ j ∈ ps.map (jumpRule hash), j ∉ rs := by
-  intro j hj hmem
-  obtain ⟨p, hp, rfl⟩ := List.mem_map.mp hj
-  have := referenced_false_iff.mp (hunref p hp) hostportsChain rs _ hk hmem
-  exact this (chainRef_jump hash p)
-
 /-- clean after setup: the pod's chains are gone, KUBE-MARK-MASQ holds galaxy's mark rule, everything
     else (KUBE-HOSTPORTS included) is what it was -/
 theorem setup_clean_spec (hash : String → String) (T : Table) (ps : List Port) (rs : List Rule)
@@ -336,52 +490,11 @@ theorem setup_clean_spec (hash : String → String) (T : Table) (ps : List Port)
         if c ∈ ps.map (chainName hash) then none
         else if c = markMasqChain then some [markRule] else Tbl.get T c := by
   obtain ⟨T2, h2, g2⟩ := setup_spec hash T ps rs hk
-  have hkn : hostportsChain ∉ ps.map (chainName hash) := by
-    intro h
-    have := names_prefix h
-    rw [hostports_no_prefix] at this; cases this
-  have hmn : markMasqChain ∉ ps.map (chainName hash) := by
-    intro h
-    have := names_prefix h
-    rw [markMasq_no_prefix] at this; cases this
   have hfresh := jump_not_in_prior hk hunref
   have hjnd := jumpRules_nodup hnd
-  have hk2 : Tbl.get T2 hostportsChain = some (rs ++ ps.map (jumpRule hash)) := by
-    rw [g2]; simp [hkn, markMasq_ne_hostports.symm, ensureAll_fresh _ _ hfresh hjnd]
-  have hn2 : ∀ p ∈ ps, Tbl.has T2 (chainName hash p) = true := by
-    intro p hp
-    simp [Tbl.has, g2, chainName_ne_markMasq, List.mem_map_of_mem hp]
-  obtain ⟨T3, h3, g3k, g3⟩ := deleteJumps_spec hash ps T2 _ hk2 hn2
-  rw [eraseAll_append _ _ hfresh hjnd] at g3k
-  obtain ⟨T4, h4, g4⟩ := cleanBatch_spec (fun _ => true) hash T3 ps hnd (by
-    intro k rs' r c hkr hr hc hcn
-    by_cases hkn' : k ∈ ps.map (chainName hash)
-    · exact hkn'
-    · exfalso
-      obtain ⟨p, hp, rfl⟩ := List.mem_map.mp hcn
-      by_cases hkh : k = hostportsChain
-      · subst hkh
-        rw [g3k] at hkr; cases hkr
-        exact referenced_false_iff.mp (hunref p hp) _ _ _ hk hr hc
-      · rw [g3 k hkh, g2 k] at hkr
-        by_cases hkm : k = markMasqChain
-        · subst hkm
-          simp at hkr; subst hkr
-          simp only [List.mem_cons, List.mem_nil_iff, or_false] at hr
-          subst hr; rw [chainRef_mark] at hc; cases hc
-        · simp only [hkm, hkn', hkh, if_false] at hkr
-          exact referenced_false_iff.mp (hunref p hp) _ _ _ hkr hr hc)
-  refine ⟨T2, T4, h2, ?_, ?_⟩
-  · simp [clean, Generated.Netfilter.cleanDeletesJumpRulesBeforeRestore, h3, Generated.Netfilter.cleanRestores,
-      commit, h4]
-  · intro c
-    rw [g4 c]
-    by_cases hcn : c ∈ ps.map (chainName hash)
-    · simp [hcn]
-    · simp only [hcn, if_false]
-      by_cases hch : c = hostportsChain
-      · subst hch
-        rw [g3k]; simp [markMasq_ne_hostports.symm, hk]
-      · rw [g3 c hch, g2 c]; simp [hcn, hch]
+  obtain ⟨T4, h4, g4⟩ := clean_spec_partial hash T T2 ps rs (ps.map (jumpRule hash)) (some [markRule])
+    (fun c => some (hpRules hash ps c)) hk hnd hunref hjnd (fun _ h => h) (Or.inl rfl) (by
+      intro c; rw [g2 c, ensureAll_fresh _ _ hfresh hjnd])
+  exact ⟨T2, T4, h2, h4, g4⟩
 
 end Galaxy.Netfilter
